@@ -454,13 +454,22 @@ def check_property(pid, tier):
                 else:
                     for e in fb:
                         undecided += e.get('undecided', [])
-        if not undecided and pc.get('bounded_replay'):
+        # thorough tier: every replay module registered for one of the property's units is run as well (bounded)
+        _extra_mods = []
+        if tier == 'thorough':
+            import replay as _rp
+            for _m in _rp._registry(VERIF):
+                _us = _m.get('unit')
+                _us = [_us] if isinstance(_us, str) else (_us or [])
+                if any(_u in pc.get('units', []) for _u in _us) and _m['file'] not in pc.get('bounded_replay', []):
+                    _extra_mods.append(_m['file'])
+        if not undecided and (pc.get('bounded_replay') or _extra_mods):
             # bounded stand-ins registered for this property: replay test modules run on the real code (concrete inputs);
             # reported under `bounded`, never counted as proved; a failing test is a violation with its failing input
             import replay
             tiers_ok = pc.get('bounded_replay_tiers', ['quick', 'thorough'])
             for m in replay._registry(VERIF):
-                if m['file'] not in pc['bounded_replay'] or tier not in tiers_ok:
+                if m['file'] not in (pc.get('bounded_replay', []) + _extra_mods) or tier not in tiers_ok:
                     continue
                 tests = m.get('tests', {})
                 t1 = time.time()
